@@ -590,7 +590,7 @@ def decode(img):
     d = Decoder(img)
     try:
         scene = d.run()
-    except (struct.error, IndexError, ValueError, TypeError, AttributeError, KeyError) as e:
+    except Exception as e:  # noqa: BLE001 - any failure on hostile input means "not decodable", never a crash of the oracle
         # hostile / damaged input: not decodable (the caller sees rule R0, never an exception)
         d.bad("R0", "decoder could not parse the file: %r" % (e,))
         scene = None
